@@ -207,3 +207,71 @@ CHECKS["C05"] = dict(
     design_ref="DESIGN.md 9/C05, 7.3",
     level_text="Exhaustive within bounds on the real RCU implementations; exactly-once is checked per object on every execution.",
 )
+
+SET_RULE = ("every schedule with <= c preemptions of each client program; programs: all 2-thread programs with 1..2 operations per thread over {insert, erase, contains} x 2 colliding keys on 3 sequential "
+            "prefixes modulo thread symmetry (2709 per container type; every program at >= 1 preemption, every k-th at 2 in the quick tier, all at 3 in the thorough tier), plus curated programs over "
+            "update/upsert, insert-with-functor, emplace, erase-with-functor, extract, get, find-with-functor, extract_min/max, growth and 3-thread programs; the final contents (find of every key) "
+            "are appended to each history; outcome = per-thread (operation, argument, result) sequences; non-trivial = operations of different threads overlapped")
+SET_EXPL_TAIL = (" Item values are fixed at construction and poisoned at destruction, so a read through a guarded/exempt/raw pointer to a disposed item shows up as a wrong value. "
+                 "C18 post-conditions run at the quiescent point of every execution.")
+
+def _units(src, fams, extra=None, ld=None):
+    out = []
+    for f in fams:
+        u = dict(name="%s%d" % (src.split("/")[-1].split(".")[0].replace("sets_", ""), f), src=src, cxxflags=["-DFAMILY=%d" % f])
+        if ld: u["ldflags"] = ld
+        out.append(u)
+    return out
+
+CHECKS["C13"] = dict(
+    title="ordered lists are linearizable sets",
+    units=_units("harness/sets_lists.cpp", [1, 2, 3, 4, 5]),
+    rule=SET_RULE,
+    explanation="MichaelList, LazyList, IterableList (HP with less, DHP with compare / seq_cst model, RCU general_buffered and general_instant; nogc insert-only variants): set/map linearizability of every execution." + SET_EXPL_TAIL,
+    design_ref="DESIGN.md 9/C13, 7.1",
+    level_text="Exhaustive within bounds on the real lists; Wing-Gong linearizability check of every complete execution against a sequential map.",
+)
+CHECKS["C14"] = dict(
+    title="hash sets are linearizable incl. growth",
+    units=_units("harness/sets_hash.cpp", [1, 2, 3, 4]),
+    rule=SET_RULE,
+    explanation="MichaelHashSet (2 buckets, colliding hash; Michael/Lazy/Iterable lists; HP, DHP, RCU), SplitListSet (dynamic and static bucket tables of at most 8 buckets, load factor 1, so the 3rd and 5th "
+                "insert double the table and later operations initialise buckets recursively; Michael/Lazy/Iterable lists; HP, DHP, RCU), FeldmanHashSet (head/array bits 4/2, hashes sharing 4, 6 and 8 low bits "
+                "so inserts expand slots into array nodes; HP, DHP, RCU)." + SET_EXPL_TAIL,
+    design_ref="DESIGN.md 9/C14",
+    level_text="Exhaustive within bounds on the real hash sets incl. programs that race with table growth, bucket initialisation and slot expansion.",
+)
+CHECKS["C15"] = dict(
+    title="skip lists and trees are linearizable ordered sets",
+    units=[dict(name="trees1-s1", src="harness/sets_trees.cpp", cxxflags=["-DFAMILY=1"], args=["--script", "1"]),
+           dict(name="trees1-s0", src="harness/sets_trees.cpp", cxxflags=["-DFAMILY=1"], args=["--script", "0"], thorough_only=True),
+           dict(name="trees1-s2", src="harness/sets_trees.cpp", cxxflags=["-DFAMILY=1"], args=["--script", "2"], thorough_only=True),
+           dict(name="trees2-s0", src="harness/sets_trees.cpp", cxxflags=["-DFAMILY=2"], args=["--script", "0"]),
+           dict(name="trees2-s2", src="harness/sets_trees.cpp", cxxflags=["-DFAMILY=2"], args=["--script", "2"]),
+           dict(name="trees2-s1", src="harness/sets_trees.cpp", cxxflags=["-DFAMILY=2"], args=["--script", "1"], thorough_only=True)] +
+          _units("harness/sets_trees.cpp", [3, 4, 5]),
+    rule=SET_RULE,
+    explanation="SkipListSet (4-level scripted tower heights: all low, all high, mixed; HP, DHP, RCU), EllenBinTreeSet (HP, DHP, RCU), BronsonAVLTreeMap (RCU; injecting monitor over the shipped spin lock and over a mutex, "
+                "pool monitor over vyukov_queue_pool): set/map linearizability; extract_min/max: empty only if the container was empty at a linearization point inside the call, the key returned was present, "
+                "and no key present during the whole call is smaller (larger)." + SET_EXPL_TAIL,
+    design_ref="DESIGN.md 9/C15, 7.2",
+    level_text="Exhaustive within bounds on the real skip lists and trees; operations of EllenBinTree/Bronson are long, so their quick tier runs a thinner program set.",
+)
+CHECKS["C18"] = dict(
+    title="quiescent structure is well-formed",
+    units=[dict(name="lists1", src="harness/sets_lists.cpp", cxxflags=["-DFAMILY=1"], args=["--property", "C18"], tier_args=dict(quick=["--bound", "1"])),
+           dict(name="lists3", src="harness/sets_lists.cpp", cxxflags=["-DFAMILY=3"], args=["--property", "C18"], tier_args=dict(quick=["--bound", "1"])),
+           dict(name="lists2", src="harness/sets_lists.cpp", cxxflags=["-DFAMILY=2"], args=["--property", "C18"], tier_args=dict(quick=["--bound", "1"])),
+           dict(name="hash2", src="harness/sets_hash.cpp", cxxflags=["-DFAMILY=2"], args=["--property", "C18"], tier_args=dict(quick=["--bound", "1"])),
+           dict(name="trees1-s1", src="harness/sets_trees.cpp", cxxflags=["-DFAMILY=1"], args=["--property", "C18", "--script", "1"], tier_args=dict(quick=["--bound", "1"])),
+           dict(name="trees2-s2", src="harness/sets_trees.cpp", cxxflags=["-DFAMILY=2"], args=["--property", "C18", "--script", "2"], tier_args=dict(quick=["--bound", "1"])),
+           dict(name="trees3", src="harness/sets_trees.cpp", cxxflags=["-DFAMILY=3"], args=["--property", "C18"], tier_args=dict(quick=["--bound", "1"])),
+           dict(name="trees5", src="harness/sets_trees.cpp", cxxflags=["-DFAMILY=5"], args=["--property", "C18"], tier_args=dict(quick=["--bound", "1"]))],
+    rule=SET_RULE + "; for C18 only the quiescent post-conditions are judged (aux counter quiescent_states = number of quiescent points examined)",
+    aux_names=["quiescent_states", "aux1", "aux2", "aux3"],
+    explanation="post-condition evaluated at the quiescent point reached by every explored execution of the C13/C14/C15 programs: traversal strictly increasing (ordered containers) / without duplicates (hash sets) "
+                "and equal to the keys contains() finds; size()/empty() agree with the contents; EllenBinTree and BronsonAVLTreeMap check_consistency(); every skip-list level is a strictly ordered sub-list of "
+                "the level below with no marked link left",
+    design_ref="DESIGN.md 9/C18",
+    level_text="Evaluated on every quiescent state reached by the exhaustive bounded exploration (quick: one preemption; thorough: the hosts' bounds).",
+)
